@@ -209,7 +209,23 @@ def r19_5b(ck, F):
     for m, q in (("recv", "tokio::sync::mpsc::Receiver::recv"), ("poll_recv", "tokio::sync::mpsc::Receiver::poll_recv"),
                  ("try_recv", "tokio::sync::mpsc::Receiver::try_recv"), ("recv_many", "tokio::sync::mpsc::Receiver::recv_many")):
         b = F.main_body(R + m)
-        uses_q = lambda x: bool(mir.calls_in(x, q))        # noqa: E731
+        def uses_q(x, q=q):
+            """x is the result of the queue operation itself (looked at through projections, `.await`, `?`, ready!), not a
+            value computed from it by further calls (e.g. the outcome of a helper that classifies the received error)."""
+            for _ in range(12):
+                if not isinstance(x, tuple) or not x:
+                    return False
+                if x[0] == "call":
+                    return x[1] == q
+                if x[0] in ("proj", "await", "try", "cast", "discr") and len(x) > 1:
+                    x = x[1] if x[0] != "cast" else x[2]
+                elif x[0] == "var" and len(x) > 3 and len(x[3]) == 1:
+                    x = x[3][0]
+                elif x[0] == "bin":
+                    return uses_q(x[2]) or uses_q(x[3])
+                else:
+                    return False
+            return False
         if m == "recv_many":
             ended = [tb for sb, tb, mm, e in switch_edges(b, lambda e: e[0] == "bin" and e[1] in ("Eq", "Ne") and uses_q(e))
                      if (mm is True) == (switch_expr(b, sb)[1] == "Eq")]
